@@ -22,6 +22,30 @@ def fn_ob(prop: str, c: vc.Contract, callees: Dict[str, vc.Contract] = None, cal
         pn = list(c.params)
         call = lambda ns, a: _lookup(ns, c.qualname)(*[a[p] for p in pn])
 
+    def _candidate_replay(fr, names):
+        """z3 cannot certify `sat` under quantified axioms: the candidate counter-model of the quantifier-free core of an undecided obligation is
+        used as an input to a native replay of the real code - only a failure REPRODUCED natively counts"""
+        if replay_code is None:
+            return None
+        for n in names:
+            d = fr.obligations[n]
+            cand = d.get("candidate") if d["status"] == "undecided" else None
+            if not cand:
+                continue
+            try:
+                code = replay_code(cand)
+            except Exception:
+                code = None
+            if not code:
+                continue
+            rep = rp.replay_dict(code, expected or c.ensures)
+            if rep.get("reproduced"):
+                fk = (finding_keys or {}).get(n.split("#")[0], "")
+                return core.refuted("z3-candidate+native-replay", f"obligation {n} undecided by z3; its candidate counter-model {json.dumps(cand, default=str)[:300]} "
+                                    f"fails natively: {rep.get('observed')}", cex={"obligation": n, "candidate_model": cand}, replay=rep, finding_key=fk,
+                                    seconds=fr.seconds, queries=fr.vcs)
+        return None
+
     def run():
         t0 = time.time()
         try:
@@ -37,6 +61,9 @@ def fn_ob(prop: str, c: vc.Contract, callees: Dict[str, vc.Contract] = None, cal
             return core.undecided("engine-V", str(e), time.time() - t0)
         names = sorted(fr.obligations)
         if fr.undecided_reason:
+            rep_out = _candidate_replay(fr, names)
+            if rep_out is not None:
+                return rep_out
             return core.undecided("engine-V", f"{fr.undecided_reason} (after {fr.paths} paths, {fr.vcs} VCs)", fr.seconds)
         if not names:
             return core.undecided("engine-V", "no obligation generated (vacuity guard)", fr.seconds)
@@ -71,6 +98,9 @@ def fn_ob(prop: str, c: vc.Contract, callees: Dict[str, vc.Contract] = None, cal
                                 cex={"obligation": n0, "model": model, "all_failed": bad}, replay=rep, finding_key=fk,
                                 seconds=fr.seconds, queries=fr.vcs)
         if und:
+            rep_out = _candidate_replay(fr, names)
+            if rep_out is not None:
+                return rep_out
             return core.undecided("z3", f"{und[0]}: {fr.obligations[und[0]].get('detail','')[:300]}", fr.seconds)
         backends = sorted({b for n in names for b in fr.obligations[n]["backends"]})
         return core.discharged("+".join(backends), fr.seconds, queries=fr.vcs,
